@@ -42,7 +42,39 @@ def freeCrypto : Crypto where
   sigOk leaf cr sr body := leaf == [0xCE] && cr == [0xC] && sr == [0xD] && body == [4]
   ckeDecode b := if b = [5] then some [0xCB] else none
   derive pub pk _ _ _ tr := if (pub = [0xCB] ∧ pk = [0x5B]) ∨ (pub = [0x5B] ∧ pk = [0xCB]) then some (freeKeys tr) else none
-  vd ms label tr := ms ++ [if label then 1 else 0] ++ tr
+  vd ms label tr := List.replicate ms.length 1 ++ 0 :: (ms ++ (if label then 1 else 0) :: tr)
+
+theorem unary_prefix_inj : ∀ (n n' : Nat) (a a' : Bytes),
+    List.replicate n (1 : UInt8) ++ 0 :: a = List.replicate n' 1 ++ 0 :: a' → n = n' ∧ a = a'
+  | 0, 0, a, a', h => by simpa using h
+  | 0, n' + 1, a, a', h => by simp [List.replicate_succ] at h
+  | n + 1, 0, a, a', h => by simp [List.replicate_succ] at h
+  | n + 1, n' + 1, a, a', h => by
+    simp only [List.replicate_succ, List.cons_append, List.cons.injEq, true_and] at h
+    have := unary_prefix_inj n n' a a' h
+    exact ⟨by omega, this.2⟩
+
+/-- the free verify_data (unary length of the master secret, the master secret, the label, the
+transcript) is injective: `VdInjective` is satisfiable -/
+theorem freeCrypto_vd_injective (m : Bytes) (l : Bool) (t m' : Bytes) (l' : Bool) (t' : Bytes)
+    (h : freeCrypto.vd m l t = freeCrypto.vd m' l' t') : m = m' ∧ l = l' ∧ t = t' := by
+  simp only [freeCrypto] at h
+  obtain ⟨hn, h2⟩ := unary_prefix_inj _ _ _ _ h
+  obtain ⟨h3, h4⟩ := List.append_inj h2 hn
+  simp only [List.cons.injEq] at h4
+  refine ⟨h3, ?_, h4.2⟩
+  cases l <;> cases l' <;> simp_all
+
+theorem freeCrypto_ms_determines_keys (p1 q1 a1 b1 : Bytes) (e1 : Bool) (t1 p2 q2 a2 b2 : Bytes) (e2 : Bool) (t2 : Bytes) (k1 k2 : Keys)
+    (h1 : freeCrypto.derive p1 q1 a1 b1 e1 t1 = some k1) (h2 : freeCrypto.derive p2 q2 a2 b2 e2 t2 = some k2)
+    (hms : k1.ms = k2.ms) : k1 = k2 := by
+  simp only [freeCrypto] at h1 h2
+  split at h1 <;> split at h2
+  · simp only [freeKeys, Option.some.injEq] at h1 h2
+    subst h1; subst h2
+    simp only [List.cons.injEq, true_and] at hms
+    rw [hms]
+  all_goals simp_all
 
 /-- the free world: client with the correct expected fingerprint, server without one -/
 def W0 : World :=
@@ -123,6 +155,17 @@ theorem reach0_no_failure : (reach0.all fun σ =>
   decide +kernel
 
 theorem reach0_length : reach0.length = 9 := by decide +kernel
+
+/-- in every state of `reach0` each verify_data value the client accepted is one the server emitted, and
+vice versa (the network hypothesis of `agree_or_not_both_connected` holds in the closed system) -/
+theorem reach0_accepted_was_sent : (reach0.all fun σ =>
+    (σ.c.evs.all fun ev => match ev with
+      | .finished _ _ body => σ.s.evs.any fun ev' => match ev' with | .sentFinished _ _ b => b == body | _ => false
+      | _ => true) &&
+    (σ.s.evs.all fun ev => match ev with
+      | .finished _ _ body => σ.c.evs.any fun ev' => match ev' with | .sentFinished _ _ b => b == body | _ => false
+      | _ => true)) = true := by
+  decide +kernel
 
 theorem reach1_init : Sys.init W1 ∈ reach1 := by decide +kernel
 theorem reach1_closed : closedB W1 reach1 = true := by decide +kernel
